@@ -97,6 +97,9 @@ func lexInv(l *Lexer) bool {
 // LexInv: exported form of the cursor invariant, for the contracts of package parser.
 func LexInv(l *Lexer) bool { return lexInv(l) }
 
+// LexInput: the source text (exported for the parser's executable-contract harness).
+func LexInput(l *Lexer) string { return l.input }
+
 // LexPos: the byte offset of the cursor (exported for the parser's contracts).
 func LexPos(l *Lexer) int { return l.position }
 
